@@ -169,14 +169,46 @@ def case_pass(case):
     else:
         src = dart_operation_src(kind, shape)
 
+    def independent(amap, bounds):
+        """(A, b) of an access map read off its values at the origin and the unit points (xDSL's AffineMap.eval), and
+        whether the map is linear at all (checked on every point of the box, <= 4096 points)."""
+        from snaxc.ir.dart.affine_transform import AffineTransform
+
+        n = amap.num_dims
+        b0 = np.array(amap.eval([0] * n, []), dtype=int)
+        A = np.zeros((len(b0), n), dtype=int)
+        for i in range(n):
+            A[:, i] = np.array(amap.eval([int(j == i) for j in range(n)], []), dtype=int) - b0
+        pts = itertools.islice(itertools.product(*[range(min(int(bd), 16)) for bd in bounds]), 4096)
+        linear = all((np.array(amap.eval(list(x), []), dtype=int) == A @ np.array(x, dtype=int) + b0).all() for x in pts)
+        return AffineTransform(A, b0), linear
+
     def run_pass():
         ctx = xshim.make_ctx()
         m = Parser(ctx, src).parse_module()
         ops = [o for o in m.walk() if isinstance(o, dart.OperationOp)]
         befores = []
+        nonlinear = []
         for op in ops:
-            bounds = tuple(op.get_static_pattern_bounds())
-            befores.append([SchedulePattern(bounds, p.data) for p in op.patterns.data])
+            try:
+                bounds = tuple(op.get_static_pattern_bounds())
+            except ValueError:
+                bounds = None
+            pats = []
+            for p in op.patterns.data:
+                t, lin = independent(p.data, bounds or (4,) * p.data.num_dims)
+                if not lin:
+                    nonlinear.append(str(p.data))
+                pats.append(t)
+            if bounds is not None:
+                befores.append([SchedulePattern(bounds, t) for t in pats])
+        if nonlinear:
+            # an access map that is not linear (mod / floordiv somewhere inside) cannot be scheduled by re-indexing
+            try:
+                DartSchedulerPass().apply(ctx, m)
+            except Exception as e:
+                return ("refused", f"{type(e).__name__}: {str(e)[:60]}"), nonlinear
+            return ("scheduled", [str(p.data) for o in m.walk() if isinstance(o, dart.ScheduleOp) for p in o.patterns.data]), nonlinear
         DartSchedulerPass().apply(ctx, m)
         sos = [o for o in m.walk() if isinstance(o, dart.ScheduleOp)]
         afters = []
@@ -187,12 +219,17 @@ def case_pass(case):
 
     def fn():
         befores, afters = run_pass()
+        if isinstance(befores, tuple):
+            eng().oblige("dart_scheduler_pass:operation_with_a_non_linear_access_map_is_refused", befores[0] == "refused", dict(maps=afters, result=befores[1]))
+            return
         eng().oblige("dart_scheduler_pass:one_schedule_per_operation", len(befores) == len(afters), dict(operations=len(befores), schedules=len(afters)))
         for before, after in zip(befores, afters):
             sc.oblige_reindex("dart_scheduler_pass", before, after)
 
     def replay(f):
         befores, afters = run_pass()
+        if isinstance(befores, tuple):
+            return befores[0] != "refused", dict(maps=afters, result=befores[1])
         if len(befores) != len(afters):
             return True, dict(operations=len(befores), schedules=len(afters))
         for before, after in zip(befores, afters):
@@ -222,6 +259,16 @@ func.func @f(%a: memref<{n}xi64>, %b: memref<{n}xi64>, %c: memref<{n}xi64>) {{
   func.return
 }}
 """
+    if kind == "alu_b":
+        # second input read through an arbitrary access map (fixed row of a 2-D buffer, offsets, non-linear indices)
+        n, pat, tb = shape
+        return dart_operation_src("alu", (n,)).replace("affine_map<(d0) -> (d0)>, affine_map<(d0) -> (d0)>, affine_map<(d0) -> (d0)>",
+                                                       f"affine_map<(d0) -> (d0)>, affine_map<(d0) -> ({pat})>, affine_map<(d0) -> (d0)>") \
+            .replace(f"%b: memref<{n}xi64>", f"%b: {tb}").replace(f"(memref<{n}xi64>, memref<{n}xi64>, memref<{n}xi64>) -> ()", f"(memref<{n}xi64>, {tb}, memref<{n}xi64>) -> ()")
+    if kind == "gemmx_a":
+        M, N, K, pat, ta = shape
+        return dart_operation_src("gemmx", (M, N, K)).replace("affine_map<(d0, d1, d2) -> (d0, d2)>", f"affine_map<(d0, d1, d2) -> ({pat})>") \
+            .replace(f"%a: memref<{M}x{K}xi8>", f"%a: {ta}").replace(f"(memref<{M}x{K}xi8>, memref", f"({ta}, memref")
     if kind == "gemmx":
         M, N, K = shape
         return f"""
@@ -295,6 +342,21 @@ def run(chk):
     # several operations with equal access maps but different shapes in one module
     cases.append(("multi", (("gemmx", (16, 16, 16)), ("gemmx", (24, 8, 16)), ("gemmx", (16, 16, 16)), ("gemmx", (8, 32, 8)))))
     cases.append(("multi", (("alu", (16,)), ("alu", (64,)), ("gemmx", (8, 8, 8)), ("alu", (4,)))))
+    # operands read at a fixed position / with offsets (constant rows of the access map), and non-linear access maps
+    # (which no re-indexing can express: to be refused)
+    for n in (16, 64):
+        cases.append(("alu_b", (n, "3, d0", f"memref<4x{n}xi64>")))
+        cases.append(("alu_b", (n, "d0, 2", f"memref<{n}x4xi64>")))
+        cases.append(("alu_b", (n, "d0 + 3", f"memref<{n + 3}xi64>")))
+        cases.append(("alu_b", (n, "0, d0", f"memref<1x{n}xi64>")))
+        cases.append(("alu_b", (n, "d0 mod 4 + 2", "memref<6xi64>")))
+        cases.append(("alu_b", (n, "d0 floordiv 2", f"memref<{n // 2}xi64>")))
+        cases.append(("alu_b", (n, "(d0 floordiv 4) * 4 + d0 mod 4", f"memref<{n}xi64>")))
+        cases.append(("alu_b", (n, "d0 mod 8", "memref<8xi64>")))
+    cases.append(("gemmx_a", (16, 16, 16, "2, d0, d2", "memref<4x16x16xi8>")))
+    cases.append(("gemmx_a", (16, 16, 16, "d0, d2, 1", "memref<16x16x2xi8>")))
+    cases.append(("gemmx_a", (16, 16, 16, "d0 + 1, d2", "memref<17x16xi8>")))
+    cases.append(("gemmx_a", (16, 16, 16, "d0, d2 mod 8 + 8", "memref<16x16xi8>")))
     if only in (None, "pass"):
         chk.add_results("dart_scheduler_pass", pmap(case_pass, cases))
     chk.bounds = dict(families=[f[0] for f in fams], bounds="symbolic >= 1, unbounded", tile_sizes="2,3,8 / 2,3,4,8,16",
